@@ -37,7 +37,7 @@ RULE = ("histories of 2-6 operations (build eager/lazy, set gpts, set sampling, 
 CLAUSES = ["rebuild-equals-fresh", "grid-follows-assignment", "cache-use-matches-fill-infinite", "cache-use-matches-fill-finite",
            "multislice-equals-fresh", "shared-integrator"]
 QUICK = dict(n=46, time=45)
-THOROUGH = dict(n=2400, time=400, shards=16)
+THOROUGH = dict(n=11300, time=480, shards=16)
 
 
 def setup(ctx):
